@@ -30,6 +30,9 @@ struct Bad {};
 // every entry of every operand is multiplied by 2^g_scale (exact): a well-conditioned system stays well conditioned at any
 // scale; the precision word of a case is `d`, `f` or `d@<k>`, `f@<k>`
 static int g_scale = 0;
+// `!` at the end of the precision word: operands that are not expressions are passed as RVALUE views of the same data
+// (A(__,__), b(__), S.submatrix_on_diagonal(0,n-1)): a temporary that does not own its data must be treated like any argument
+static bool g_rvalue = false;
 template <typename T> static T scale_factor() { return (T)std::ldexp(1.0, g_scale); }
 
 template <typename T> struct Snap {   // raw image of an operand's whole backing store
@@ -196,6 +199,7 @@ void run_symm(const std::vector<std::string>& w, std::string& outcome, Snaps<T>&
     if (S.expr && b.expr) { GUARD(solve(T(2) * S.view, T(2) * b.view)) }
     else if (S.expr) { GUARD(solve(T(2) * S.view, b.view)) }
     else if (b.expr) { GUARD(solve(S.view, T(2) * b.view)) }
+    else if (g_rvalue) { GUARD(solve(S.view.submatrix_on_diagonal(0, n - 1), b.view(__))) }
     else { GUARD(solve(S.view, b.view)) }
   } else if (op == "ssm") {
     if (w.size() < 7) throw Bad();
@@ -208,6 +212,7 @@ void run_symm(const std::vector<std::string>& w, std::string& outcome, Snaps<T>&
     if (S.expr && B.expr) { GUARD(solve(T(2) * S.view, T(2) * B.view)) }
     else if (S.expr) { GUARD(solve(T(2) * S.view, B.view)) }
     else if (B.expr) { GUARD(solve(S.view, T(2) * B.view)) }
+    else if (g_rvalue) { GUARD(solve(S.view.submatrix_on_diagonal(0, n - 1), B.view(__, __))) }
     else { GUARD(solve(S.view, B.view)) }
   } else if (op == "sinv") {
     if (w.size() < 5) throw Bad();
@@ -217,7 +222,7 @@ void run_symm(const std::vector<std::string>& w, std::string& outcome, Snaps<T>&
     if (pos != w.size()) throw Bad();
     S.build(LS, n, EA); sn.add("A", S.snap);
     if (mini_lapack_clear) mini_lapack_clear();
-    if (S.expr) { GUARD(inv(T(2) * S.view)) } else { GUARD(inv(S.view)) }
+    if (S.expr) { GUARD(inv(T(2) * S.view)) } else if (g_rvalue) { GUARD(inv(S.view.submatrix_on_diagonal(0, n - 1))) } else { GUARD(inv(S.view)) }
   } else throw Bad();
 }
 
@@ -250,6 +255,7 @@ template <typename T> std::string run_case(const std::vector<std::string>& w) {
     if (A.expr && b.expr) { GUARD(solve(T(2) * A.view, T(2) * b.view)) }
     else if (A.expr) { GUARD(solve(T(2) * A.view, b.view)) }
     else if (b.expr) { GUARD(solve(A.view, T(2) * b.view)) }
+    else if (g_rvalue) { GUARD(solve(A.view(__, __), b.view(__))) }
     else { GUARD(solve(A.view, b.view)) }
   } else if (op == "gsm") {
     if (w.size() < 6) throw Bad();
@@ -262,6 +268,7 @@ template <typename T> std::string run_case(const std::vector<std::string>& w) {
     if (A.expr && B.expr) { GUARD(solve(T(2) * A.view, T(2) * B.view)) }
     else if (A.expr) { GUARD(solve(T(2) * A.view, B.view)) }
     else if (B.expr) { GUARD(solve(A.view, T(2) * B.view)) }
+    else if (g_rvalue) { GUARD(solve(A.view(__, __), B.view(__, __))) }
     else { GUARD(solve(A.view, B.view)) }
   } else if (op == "ginv") {
     if (w.size() < 5) throw Bad();
@@ -271,7 +278,7 @@ template <typename T> std::string run_case(const std::vector<std::string>& w) {
     if (pos != w.size()) throw Bad();
     A.build(LA, r, c, EA); sn.add("A", A.snap);
     if (mini_lapack_clear) mini_lapack_clear();
-    if (A.expr) { GUARD(inv(T(2) * A.view)) } else { GUARD(inv(A.view)) }
+    if (A.expr) { GUARD(inv(T(2) * A.view)) } else if (g_rvalue) { GUARD(inv(A.view(__, __))) } else { GUARD(inv(A.view)) }
   } else if (op == "ssv" || op == "ssm" || op == "sinv") {
     if (w.size() < 3) throw Bad();
     if (w[2] == "rl") run_symm<T, ROW_LOWER_COL_UPPER>(w, outcome, sn, Sl, B, b);
@@ -298,7 +305,8 @@ int main() {
     std::string out;
     try {
       if (w.size() < 2) throw Bad();
-      std::string prec = w[1]; g_scale = 0;
+      std::string prec = w[1]; g_scale = 0; g_rvalue = false;
+      if (!prec.empty() && prec[prec.size() - 1] == '!') { g_rvalue = true; prec = prec.substr(0, prec.size() - 1); }
       size_t at = prec.find('@');
       if (at != std::string::npos) {
         char* e; long k = strtol(prec.c_str() + at + 1, &e, 10);
